@@ -101,6 +101,7 @@ def unit(run, scope_files=None):
     R = "UNIT"
     prog = run.prog
     uf = UF()
+    const_adds = []
     seeds = {}     # node -> (unit, why)
     fns = [f for f in prog.real_fns() if scope_files is None or any(f.file.startswith(s) for s in scope_files)]
 
@@ -155,6 +156,10 @@ def unit(run, scope_files=None):
                 l, r = rv["l"], rv["r"]
                 ln, rn = opnode(f, l), opnode(f, r)
                 if op in ("Add", "Sub"):
+                    cc = const_int(r) if const_int(r) is not None else const_int(l)
+                    vn = ln if const_int(r) is not None else rn
+                    if cc and vn and not st["span"].get("mac"):
+                        const_adds.append((vn, f, op, cc, st["span"]))
                     # result node: for WithOverflow the result is a tuple (usize,bool) local: component 0
                     if "WithOverflow" in rv["op"]:
                         res = ("t", f.id, st["place"]["l"], "0") if not st["place"]["p"] else None
@@ -306,6 +311,29 @@ def unit(run, scope_files=None):
             run.violation(R, key, c[1].split(" at ")[-1].split(" ")[0] if " at " in c[1] else "-",
                           "a byte offset and a character index meet in one value: Byte seed [%s]; Char seed [%s]. With a multi-byte character before the position the value is wrong: wrong line/column, or a slice off a character boundary (panic)" % (b[1], c[1]),
                           ["Byte: " + b[1]] + chain + ["Char: " + c[1]])
+    # UNIT4: a byte offset moved by a literal number of bytes
+    byte_roots = set()
+    for root, members in classes.items():
+        if any(u == "Byte" for n, ss in members for (u, w) in ss):
+            byte_roots.add(root)
+    audited = run.table("unit")["literal_byte_steps"] if hasattr(run, "table") else {}
+    n4 = 0
+    seen4 = set()
+    for vn, f, op, cc, span in const_adds:
+        if uf.find(vn) not in byte_roots:
+            continue
+        k4 = (f.id, op, cc)
+        if k4 in seen4:
+            continue
+        seen4.add(k4)
+        n4 += 1
+        key = "UNIT4|%s|%s%d" % (f.id, "+" if op == "Add" else "-", cc)
+        if f.id in audited:
+            run.exception("UNIT4", key, "%s:%d" % (span["file"], span["line"]), "%s moves a byte offset by the literal %d (%s)" % (f.id, cc, audited[f.id]))
+        else:
+            run.violation("UNIT4", key, "%s:%d" % (span["file"], span["line"]),
+                          "%s moves a byte offset by the literal %d: a literal byte count is only a character boundary next to an ASCII character; stepping over an arbitrary character needs char::len_utf8()" % (f.id, cc))
+    run.count("unit4_literal_steps", n4)
     run.count("unit_seeded_classes", n_classes)
     run.count("unit_seeds", sum(len(v) for v in seeds.values()))
     run.count("unit_functions", len(fns))
@@ -348,8 +376,18 @@ def unit2(run):
                     run.violation(R, key + "|literal", f.loc(st["span"]),
                                   "%s returns a token length that is the literal %d: a byte count that ignores the width of the character it covers; for a multi-byte character the tokenizer stops in the middle of it and the next slice panics" % (f.id, c))
                 else:
-                    d = describe_origin(f, f.origin_op(op))
+                    o = peel(f.origin_op(op))
+                    d = describe_origin(f, o)
                     ok = d.endswith(".length") or "len_utf8" in d or d.endswith("::len")
+                    if not ok and o[0] == "call":
+                        # e.g. src.chars().next().map_or(1, |c| c.len_utf8()): width of the character itself
+                        from mir import closure_of_origin
+                        for a in o[1]["args"]:
+                            cid = closure_of_origin(f.origin_op(a))
+                            g = prog.fn(cid) if cid else None
+                            if g is not None and any((t2.get("callee") or "").endswith("len_utf8") for _, t2 in g.calls()):
+                                ok = True
+                                d += " (closure computes char::len_utf8)"
                     run.check(ok, R, key, f.loc(st["span"]), "%s: token length comes from %s" % (f.id, d),
                               "%s: token length comes from `%s`, not from the character walker" % (f.id, d))
     run.floor(R, "token length sites", n, 10)
@@ -385,3 +423,58 @@ def unit3(run):
                           "%s builds a Span from token boundaries (audited: %s)" % (f.id, allowed.get(f.id, "")),
                           "%s calls Span::new with explicit offsets but is not an audited constructor of locations" % f.id)
     run.floor(R, "Span::new call sites", n, 2)
+
+
+
+def span_shape(run):
+    """spans are byte ranges built by the walker and joined upward: shape of Walker::get_span and Span::join"""
+    R = "SPAN"
+    prog = run.prog
+    g = run.anchor(R, "Walker::<'src>::get_span")
+    if g:
+        ok = False
+        for bi, t in g.calls():
+            if (t.get("resolved") or "") == "diagn::span::Span::new" and len(t["args"]) == 3:
+                good = 0
+                for a, pname in ((t["args"][1], "start_byte_index"), (t["args"][2], "end_byte_index")):
+                    o = g.origin_op(a)
+                    if o[0] == "place" and o[1][0] == "binop":
+                        o = o[1]
+                    if o[0] == "binop" and o[1]["op"].startswith("Add"):
+                        ds = [describe_origin(g, g.origin_op(o[1]["l"])), describe_origin(g, g.origin_op(o[1]["r"]))]
+                        if any(d.endswith(".span_offset") for d in ds) and any(d == "param:" + pname for d in ds):
+                            good += 1
+                ok = good == 2
+        run.check(ok, R, "SPAN|get_span", g.loc(), "Walker::get_span = Span::new(file, span_offset + start, span_offset + end)",
+                  "Walker::get_span no longer adds span_offset to both ends: locations of tokens inside nested walkers (asm blocks, rule bodies) would point elsewhere")
+    j = run.anchor(R, "diagn::span::Span::join")
+    if j:
+        mins = [t for bi, t in j.calls() if (t.get("callee") or "") == "std::cmp::min"]
+        maxs = [t for bi, t in j.calls() if (t.get("callee") or "") == "std::cmp::max"]
+        def comps(t):
+            return sorted(describe_origin(j, j.origin_op(a)).rsplit(".", 1)[-1] for a in t["args"])
+        ok = len(mins) == 1 and len(maxs) == 1 and comps(mins[0]) == ["0", "0"] and comps(maxs[0]) == ["1", "1"]
+        # the literal's location is (min, max)
+        lit_ok = False
+        for bi, si, st in j.stmts():
+            if st["k"] == "assign" and st["rv"]["k"] == "agg" and st["rv"]["agg"] == "tuple" and len(st["rv"]["ops"]) == 2:
+                o0, o1 = peel(j.origin_op(st["rv"]["ops"][0])), peel(j.origin_op(st["rv"]["ops"][1]))
+                if o0[0] == "call" and mins and o0[1] is mins[0] and o1[0] == "call" and maxs and o1[1] is maxs[0]:
+                    lit_ok = True
+        run.check(ok and lit_ok, R, "SPAN|join|min-max", j.loc(), "Span::join = (min of the starts, max of the ends)",
+                  "Span::join does not take the minimum of the starts and the maximum of the ends")
+        # different files are not joined silently
+        cmp_files = False
+        for bi, si, st in j.stmts():
+            if st["k"] == "assign" and st["rv"]["k"] == "binop" and st["rv"]["op"] in ("Eq", "Ne"):
+                ds = [describe_origin(j, j.origin_op(st["rv"]["l"])), describe_origin(j, j.origin_op(st["rv"]["r"]))]
+                if all(d.endswith(".file_handle") for d in ds):
+                    cmp_files = True
+        run.check(cmp_files, R, "SPAN|join|same-file", j.loc(), "Span::join checks that both spans belong to the same file",
+                  "Span::join no longer checks that both spans belong to the same file")
+    # every message goes through the parent stack
+    m = run.anchor(R, "diagn::report::Report::message")
+    if m:
+        ok = any((t.get("resolved") or "").endswith("Report::wrap_in_parents") for bi, t in m.calls())
+        run.check(ok, R, "SPAN|message-wrapped", m.loc(), "Report::message wraps the message in the parent stack",
+                  "Report::message no longer wraps messages in the parent stack: inner errors lose the instruction/data element that caused them")
